@@ -2,6 +2,9 @@
 # tools/run_seed.sh <seeded-dir>  : confirm the demo (fails with the change, passes without), run the property's check with the
 # change applied to /repo, undo the change. Prints one summary line.
 D=$1
+# one writer at a time on /repo's working tree (seed windows of concurrent authors, fix commits)
+exec 9>/tmp/repo_worktree.lock
+flock 9
 P=$(python3 -c "import json;print(json.load(open('$D/meta.json'))['property'])")
 cd /repo
 git diff --quiet || { echo "/repo has local changes"; exit 9; }
